@@ -561,6 +561,12 @@ func (r *Run) loop() {
 			r.mu.Unlock()
 			return
 		}
+		if len(runnable) == 0 || r.Steps%512 == 0 {
+			if r.lockCycle() {
+				r.mu.Unlock()
+				return
+			}
+		}
 		if len(runnable) == 0 {
 			d := r.nextDeadline()
 			if d.IsZero() {
@@ -631,6 +637,45 @@ func (r *Run) loop() {
 		r.mu.Unlock()
 		pick.resume <- struct{}{}
 	}
+}
+
+// lockCycle looks for a cycle in the wait-for graph of tasks parked at a
+// Lock (exact: the ownership table is precise).  Called with r.mu held.
+func (r *Run) lockCycle() bool {
+	waits := map[*Task]*Task{}
+	for _, t := range r.all {
+		if t.state == stParked && t.kind == "lock" {
+			if li := r.locks[t.lockWait]; li != nil && li.owner != nil {
+				waits[t] = li.owner
+			}
+		}
+	}
+	for start := range waits {
+		seen := map[*Task]bool{}
+		t := start
+		for t != nil && !seen[t] {
+			seen[t] = true
+			t = waits[t]
+		}
+		if t == nil {
+			continue
+		}
+		// t is on a cycle: describe it
+		var desc []string
+		u := t
+		for {
+			li := r.locks[u.lockWait]
+			desc = append(desc, fmt.Sprintf("%s waits at %s for the lock taken at %s by %s", u, u.site, li.site, li.owner))
+			u = waits[u]
+			if u == t || u == nil {
+				break
+			}
+		}
+		sort.Strings(desc)
+		r.failures = append(r.failures, &Failure{Kind: "deadlock", Check: "deadlock", Detail: strings.Join(desc, "; "), Step: r.Steps, Site: t.site, Task: t.String()})
+		return true
+	}
+	return false
 }
 
 func (r *Run) describeStuck() {
